@@ -18,7 +18,10 @@ def assumptions(variant):
             "wait by any other thread is rejected by the acceptor)",
             "code between two wrapped calls of one thread is atomic w.r.t. the protocol (it touches only data "
             "protected by the mutex held, or thread-local data)",
-            "fanout >= 1 (fanout 0 is C18's concern); pthread_create succeeds; every worker's command ends",
+            "fanout >= 1 (fanout 0 is C18's concern); every worker's command ends; when pthread_create fails pdsh "
+            "exits through errx (FanX.createFail: modelled and under the acceptor; that -k then reaches the running "
+            "commands is judged by the monitors only); getrlimit / setrlimit work (root: raising the soft limit to the "
+            "hard limit succeeds)",
             "wait-for-room construct of the checked tree, detected by behaviour: %s (C04 inflight_le_fanout is "
             "about `while`; `if` is covered by the witness theorem; the C03 theorems hold for both)" % variant]
 
